@@ -13,7 +13,7 @@ import (
 func init() {
 	register("C08", &propDef{
 		Title: "A finished bundle contains everything that was added or discovered",
-		Rules: []func(*Checker){ruleC08NoDrop, ruleC08Callbacks, ruleC08Manifest, ruleC08SameJoin, ruleC08Lookup},
+		Rules: []func(*Checker){ruleC08NoDrop, ruleC08Callbacks, ruleC08Manifest, ruleC08SameJoin, ruleC08Lookup, ruleC08Meta},
 		NotDecided: []string{
 			"transitive closure over arbitrary dependency graphs and the content of fetched files (run-time facts)",
 			"that looked-up paths exist on disk",
@@ -53,17 +53,24 @@ func init() {
 }
 
 func ruleC06ManifestAs(id string) func(*Checker) { return aliasRule(ruleC06Manifest, "C06.manifest", id, 3) }
-func ruleC03PruneAs(id string) func(*Checker)    { return aliasRule(ruleC03Prune, "C03.prune", id, 2) }
+func ruleC03PruneAs(id string) func(*Checker) {
+	// for the bundle property only the bundle walker's obligations matter
+	return aliasRuleFiltered(ruleC03Prune, "C03.prune", id, 2, func(o Oblig) bool { return strings.Contains(o.Key, "sourcebundle.") })
+}
 func ruleC03BundleAs(id string) func(*Checker)   { return aliasRule(ruleC03Bundle, "C03.bundle", id, 3) }
 
 // aliasRule re-reports another property's rule under this property's id.
 func aliasRule(r func(*Checker), from, to string, floor int) func(*Checker) {
+	return aliasRuleFiltered(r, from, to, floor, nil)
+}
+
+func aliasRuleFiltered(r func(*Checker), from, to string, floor int, keep func(Oblig) bool) func(*Checker) {
 	return func(c *Checker) {
 		sub := newChecker(c.P, c.Prop, c.Tier)
 		r(sub)
 		c.rule(to, "= "+from+": "+sub.RuleTexts[from], floor)
 		for _, o := range sub.Obls {
-			if o.Rule != from {
+			if o.Rule != from || (keep != nil && !keep(o)) {
 				continue
 			}
 			o.Rule = to
@@ -1306,4 +1313,79 @@ func ruleC18Reverse(c *Checker) {
 		}
 	}
 	c.check(relOK, R, name, "relative to the bundle root", p.Pos(fn.Pos()), "filepath.Rel(b.rootDir, abs)", "the path is not taken relative to the bundle root")
+}
+
+// ruleC08Meta: what the fetcher and the registry supplied is recorded on every
+// successful path, whichever way the function succeeds.
+func ruleC08Meta(c *Checker) {
+	const R = "C08.meta"
+	c.rule(R, "Metadata supplied by the fetcher is recorded on every successful path: from the fetcher's ok edge every path to a success return of the package-ensuring function passes the update of Builder.remotePackageMeta with the response's metadata, or the nil edge of the 'metadata present' test — including the early success return taken when an identical package directory already exists (otherwise which of two identical packages keeps its metadata depends on the order they were fetched in).", 1)
+	p := c.P
+	fn, fetch := ensureFunc(p)
+	if fn == nil {
+		c.anchorMissing(R, "the package-ensuring function")
+		return
+	}
+	resp := extractOf(fetch, 0)
+	isRecord := func(in ssa.Instruction) bool {
+		mu, ok := in.(*ssa.MapUpdate)
+		if !ok || builderMapOf(mu.Map) != "remotePackageMeta" {
+			return false
+		}
+		return resp != nil && p.backSlice(mu.Value, 0)[resp]
+	}
+	// nil edges of the presence test on the response's metadata
+	_, absent := condEdges(fn, func(v ssa.Value) bool {
+		bo, ok := v.(*ssa.BinOp)
+		if !ok || bo.Op != token.NEQ || !isNilConst(bo.Y) {
+			return false
+		}
+		return resp != nil && p.backSlice(bo.X, 0)[resp]
+	})
+	okE, _ := okEdgesOfCall(fetch)
+	okAll := len(okE) > 0
+	var off ssa.Instruction
+	for _, e := range okE {
+		seen := map[*ssa.BasicBlock]bool{}
+		var walk func(b *ssa.BasicBlock, from int) bool
+		walk = func(b *ssa.BasicBlock, from int) bool {
+			for i := from; i < len(b.Instrs); i++ {
+				in := b.Instrs[i]
+				if isRecord(in) {
+					return true
+				}
+				if r, ok := in.(*ssa.Return); ok {
+					if mayReturnNilErr(r) {
+						off = r
+						return false
+					}
+					return true
+				}
+			}
+			for i, s := range b.Succs {
+				skip := false
+				for _, a := range absent {
+					if a.From == b && a.Succ == i {
+						skip = true // nothing to record on this path
+					}
+				}
+				if skip || seen[s] {
+					continue
+				}
+				seen[s] = true
+				if !walk(s, 0) {
+					return false
+				}
+			}
+			return true
+		}
+		if !walk(e.To(), 0) {
+			okAll = false
+		}
+	}
+	pos := p.Pos(fetch.Pos())
+	if off != nil {
+		pos = p.Pos(off.Pos())
+	}
+	c.check(okAll, R, p.FuncName(fn), "fetcher metadata recorded on every successful path", pos, "every success return lies past the metadata update (or the 'no metadata' edge)", "a success return can be reached without recording the fetcher's metadata (e.g. the early return for an already-present identical directory): the bundle's metadata then depends on fetch order")
 }
